@@ -28,7 +28,12 @@ Proof. exact f32_of_bits_valid. Qed.
 Print Assumptions C18_every_bit_pattern_valid.
 
 (** ** a token, inside the vocabulary, whose logit is not -Inf - whenever some logit is not -Inf (in particular
-    whenever some logit is finite), for every temperature (zero or not), top-k, top-p, min-p and draw *)
+    whenever some logit is finite), for every temperature (zero or not), top-k, top-p, min-p and draw.
+    The draw r = 0 is included ([draw_ok] is 0 <= r <= 1): the binary search then returns position 0 whatever the
+    probabilities are, and the theorem holds because the list was *sorted by topK first*, so position 0 is a maximal
+    logit (Proofs.pick_spec: the chosen position is 0 or its probability is not a zero; Proofs.legal_facts: the head of a
+    legal topK result dominates every logit).  On an unsorted list (vocabulary order) a -Inf token at position 0 would be
+    returned for r = 0 - the model calls topK unconditionally, as the code does, also when every filter is off. *)
 Theorem C18_in_vocab_and_admissible : forall E, exp_oracle_ok E ->
   forall temp k topp minp logits r,
   params_ok temp topp minp -> draw_ok r -> Forall num logits ->
